@@ -1591,6 +1591,9 @@ package formula
 // x.k on a string-keyed map of the caller (map[string]interface{}): the entry, null when absent;
 // on null: null; a map whose keys are not strings and a missing or unexported struct field
 // are errors (C03).
+// strMap: the value is a map[string]interface{} (the data map kind the statement names).
+//@ spec strMap(a any) bool := is(a, map[string]interface{})
+
 //@ func getObjectValueFromKey
 //@   tags [C16,C03]
 //@   requires wfv(v)
